@@ -31,6 +31,9 @@ type c12Case struct {
 	// Syslog: the server also registers the syslog accounter (writing to a socket the harness owns), so
 	// users whose accounter is of type SYSLOG are accountable too
 	Syslog bool `json:"syslog,omitempty"`
+	// SinkLogger: 0 = the sink is the harness' recorder; 1 = a log.Logger over it; k > 1 = that logger's
+	// every k-th write reports an error after the record was taken
+	SinkLogger int `json:"sink_logger,omitempty"`
 }
 
 // the fixed configuration of this check: who has which accounter
@@ -113,6 +116,7 @@ func genNastyText(t *rapid.T, label string, max int) model.B {
 func genC12(t *rapid.T) c12Case {
 	c := c12Case{Format: rapid.SampledFrom([]string{"yaml", "json"}).Draw(t, "format"), Extra: genC12Extra(t)}
 	c.Syslog = rapid.IntRange(0, 3).Draw(t, "syslog_accounter") == 0
+	c.SinkLogger = rapid.SampledFrom([]int{0, 0, 0, 1, 2, 3}).Draw(t, "sink_logger")
 	n := rapid.IntRange(1, 6).Draw(t, "nreqs")
 	for i := 0; i < n; i++ {
 		r := c12Req{Seq: rapid.SampledFrom([]byte{1, 1, 3, 5}).Draw(t, "seq")}
@@ -127,6 +131,11 @@ func genC12(t *rapid.T) c12Case {
 			RemAddr: genNastyText(t, "rem", 255),
 		}
 		na := rapid.OneOf(rapid.IntRange(0, 5), rapid.SampledFrom([]int{0, 1, 16, 17, 64, 255})).Draw(t, "nargs")
+		if rapid.IntRange(0, 4).Draw(t, "standard_attributes") == 0 {
+			// what devices report: the standard attributes, numeric values at the edges
+			r.Req.Args = genAttrArgs(t, "attr", rapid.IntRange(0, 4).Draw(t, "nattrs"))
+			na = 0
+		}
 		for j := 0; j < na; j++ {
 			if j < 6 {
 				r.Req.Args = append(r.Req.Args, genNastyText(t, "arg", 255))
@@ -258,9 +267,15 @@ func runC12(t failer, c c12Case) {
 	}
 	cfg := c12Config()
 	cfg.Users = append(cfg.Users, c.Extra...)
-	env, err := startRef(cfg, refOpts{format: c.Format, recover: true, syslog: c.Syslog})
+	env, err := startRef(cfg, refOpts{format: c.Format, recover: true, syslog: c.Syslog, sinkLogger: c.SinkLogger})
 	if err != nil {
 		t.Fatalf("HARNESS-BUG: fixed configuration refused: %v", err)
+	}
+	switch {
+	case c.SinkLogger == 1:
+		ev.Class("sink:log.Logger")
+	case c.SinkLogger > 1:
+		ev.Class("sink:log.Logger-whose-writes-fail-after-the-fact")
 	}
 	defer func() {
 		if e := env.stop(); e != nil {
